@@ -17,6 +17,8 @@ def run(rep):
     rep.guard(f3, rep, w)
     rep.guard(f4, rep, w)
     rep.guard(f5, rep, w)
+    rep.guard(f6, rep, w)
+    rep.guard(f7, rep, w)
     import c06
     rep.guard(c06.s5, rep, w)   # a yield / switch must not close the suspended fiber's upvalues (its slots stay live)
     rep.guard(c06.s6, rep, w)   # a finishing fiber closes the upvalues of its body frame before the frame goes
@@ -327,3 +329,64 @@ def f5(rep, w):
         raise Broken('C09', 'anchor', 'load_fiber: has_finished / caller tests not found')
     r.check(all(any(h in dom.get(l_, ()) for h in fin) for l_ in link), 'load_fiber: has_finished() is tested before the caller link',
             'load_fiber tests the caller link before has_finished(): a fiber that died with an uncaught error (frames cleared, link left behind) is reported as "already called" although it has finished', f.loc())
+
+
+def f6(rep, w):
+    """control comes back to a fiber in the state in which it left: the switch itself changes which fiber is active and reloads the
+    machine registers from that fiber's top frame -- any other VM-wide state it overwrites (without having read it, i.e. without
+    saving it for the side being suspended) is lost for the fiber that is resumed later"""
+    import c08
+    r = rep.rule('F6', 'a fiber switch overwrites no VM-wide state besides the active-fiber pointers and the registers reloaded from the frame', floor=2)
+    lf = w.require_fn(VM + 'load_frame', 'C09')
+    _, regs = c08.field_accesses(w, lf, 0)
+    regs = {x for x in regs if x[0] == 'yarel::vm::Vm'}
+    if not regs:
+        raise Broken('C09', 'anchor', 'load_frame writes no Vm register')
+    for nm in ('load_fiber', 'unload_fiber'):
+        f = w.require_fn(VM + nm, 'C09')
+        rd, wr = c08.field_accesses(w, f, 0)
+        extra = sorted(x[1] for x in wr if x[0] == 'yarel::vm::Vm' and x not in regs and x[1] not in ('fiber', 'unsafe_fiber') and x not in rd)
+        r.check(not extra, '%s writes only the active-fiber pointers (and what it saved first)' % nm,
+                '%s overwrites Vm.%s without saving it: the suspended side finds that state changed when control comes back (e.g. an exception in flight '
+                'through a finally block is forgotten)' % (nm, ', Vm.'.join(extra)), f.loc())
+
+
+def f7(rep, w):
+    """Fiber.call / Fiber.yield switch stacks themselves (they are the natives flagged `manages_stack`): when they come back -- with a value
+    or with an error -- the active stack is already the way the resumed side expects it. The generic native call sequence may therefore
+    remove the arguments only for natives that do not manage the stack."""
+    r = rep.rule('F7', 'call_native removes the arguments only for natives that do not manage the stack themselves', floor=1)
+    f = w.require_fn(VM + 'call_native', 'C09')
+    dom = f.dominators()
+    plain = []      # entry blocks of regions where manages_stack is known to be false
+    for bi in sorted(f.normal_blocks()):
+        b = f.blocks[bi]
+        t = b['t']
+        if t['t'] != 'switch' or op_place(t['d']) is None:
+            continue
+        dl = op_place(t['d'])['l']
+        for s_ in b['s']:
+            if s_.get('d', {}).get('l') != dl:
+                continue
+            rr = s_['r']
+            src = rr.get('o') if rr.get('rv') in ('use', 'un') else None
+            pl = op_place(src) if src else None
+            if pl is None or not any(isinstance(e, dict) and e.get('n') == 'manages_stack' for e in pl.get('p', [])):
+                continue
+            zero = [tb for v, tb in t['cases'] if v == 0]
+            if rr.get('rv') == 'use' and zero:
+                plain.append(zero[0])
+            elif rr.get('rv') == 'un' and rr.get('op') == 'Not':
+                plain.append(t['else'])
+    if not plain:
+        raise Broken('C09', 'anchor', 'call_native: no test of manages_stack found')
+    n = 0
+    for bi, t in f.calls():
+        if callee_name(t) not in (VM + 'discard', VM + 'pop') and not strip_generics(callee_name(t) or '').endswith('Vec::truncate'):
+            continue
+        n += 1
+        r.check(any(p_ in dom.get(bi, ()) for p_ in plain), 'call_native / %s is under !manages_stack' % callee_name(t).rsplit('::', 1)[-1],
+                'call_native removes stack slots (%s) also for natives that manage the stack themselves: after a failed Fiber.yield / Fiber.call the slot below the call '
+                '- a live local of the caller - is overwritten by the error' % callee_name(t).rsplit('::', 1)[-1], f.loc(t.get('sp')))
+    if n < 1:
+        raise Broken('C09', 'floor', 'call_native: no argument removal found')
